@@ -531,6 +531,11 @@ func substringIndFunc(arg1, arg2 query, after bool) func(query, iterator) interf
 			word = node.Value()
 		}
 		if word == "" {
+			// The empty string is found at the very start: nothing comes
+			// before it, the whole string after it.
+			if after {
+				return str
+			}
 			return ""
 		}
 
